@@ -207,7 +207,7 @@ fn explore(cx: &mut Ctx, rng: &mut Rng) {
     }
     let mut cases = std::mem::take(&mut b.buf);
     let only = std::env::var("C06_ONLY").ok();
-    if only.as_deref() == Some("gen") {
+    if only.as_deref().is_some_and(|o| o.starts_with("gen")) {
         // developer aid: only the control-flow / register-pressure generators
         cases.clear();
         let mut sink = |c: Case| cases.push(c);
@@ -218,6 +218,8 @@ fn explore(cx: &mut Ctx, rng: &mut Rng) {
         meta_mutator_cases(&sweep.eps, thorough, &mut sink);
         deferred_capture_cases(&mut sink);
         misplaced_construct_cases(thorough, &mut sink);
+        format_width_cases(thorough, &mut sink);
+        packed_args_cases(thorough, &mut sink);
     }
     if let Some(f) = &only {
         cases.retain(|c| c.apis.iter().any(|a| a.contains(f.as_str())));
@@ -251,6 +253,8 @@ fn explore(cx: &mut Ctx, rng: &mut Rng) {
         meta_mutator_cases(&sweep.eps, thorough, &mut sink);
         deferred_capture_cases(&mut sink);
         misplaced_construct_cases(thorough, &mut sink);
+        format_width_cases(thorough, &mut sink);
+        packed_args_cases(thorough, &mut sink);
     }
     let cases = std::mem::take(&mut b.buf);
     eprintln!("[c06] control-flow / register-pressure / iterator-reentrancy cases: {}", cases.len());
@@ -433,7 +437,7 @@ fn replay_known(cx: &mut Ctx) {
         hang_probe_cases.push(Case { kind: 'R', text: src.to_string(), group: "excluded-recursion-probe", apis: vec!["excluded:script-recursion".into()] });
     }
     // the script's own gigantic allocation request (stated exclusion), listed explicitly
-    for src in ["(1..10).windows(9223372036854775807).next()\n", "(1..10).chunks(9223372036854775807).next()\n"] {
+    for src in ["(1..10).windows(9223372036854775807).next()\n", "(1..10).chunks(9223372036854775807).next()\n", "'ab'.repeat(1e30)\n", "'ab'.repeat(9223372036854775807)\n", "[].resize(1e30, 0)\n", "x = 1\n'{x:4000000000}'\n"] {
         hang_probe_cases.push(Case { kind: 'R', text: src.to_string(), group: "excluded-allocation-probe", apis: vec!["excluded:allocation-request".into()] });
     }
     let outs = cx.pool.run_opts(&hang_probe_cases, Duration::from_millis(4000), false);
@@ -479,6 +483,16 @@ fn main() {
         return;
     }
     install_hook();
+    if argv.iter().any(|a| a == "--panic-sites") {
+        // developer aid: print the census in the form of c06_parts/sites_baseline.rs
+        let mut res = SiteResolver::new();
+        println!("const PANIC_SITE_BASELINE: &[(&str, &str, &str, usize)] = &[");
+        for ((f, g, c), n) in panic_site_census(&mut res) {
+            println!("    ({:?}, {:?}, {:?}, {}),", f, g, c, n);
+        }
+        println!("];");
+        return;
+    }
     if let Some(i) = argv.iter().position(|a| a == "--probe") {
         // developer aid: run the scripts of a file (separated by lines `---`) in-process
         let src = std::fs::read_to_string(&argv[i + 1]).expect("probe file");
@@ -580,6 +594,8 @@ fn main() {
             cx.run_cases(cases);
         }
     }
+    // 0. the checked panic-site table still covers the code
+    check_panic_site_table(&mut cx);
     // 1. (K) kernels
     run_kernel_correspondence(&mut cx);
     // 2. exploration
